@@ -177,7 +177,11 @@ def run_property(pid, tier, seed, meta, known, scratch, a):
         print('  failed obligation: %s  (%s: %s)' % (o['name'], o['id'], o['description']))
     for r in undecided:
         print('UNDECIDED unit=%s: %s' % (r.name, r.reason))
-    missed = [m for m in mutant_results if not m['caught']]
+    caught_keys = set(m['mutant'] for m in mutant_results if m['caught'])
+    missed = []
+    for m in mutant_results:     # a mutant of a shared (lib) function counts as caught if any unit using it fails
+        if not m['caught'] and m['mutant'] not in caught_keys and m['mutant'] not in [x['mutant'] for x in missed]:
+            missed.append(m)
     for m in missed:
         print('UNDECIDED seeded mutant not caught: unit=%s %s (%s %s)' % (m['unit'], m['mutant'], m['status'], m['reason']))
     wall = time.time() - t0
